@@ -53,7 +53,7 @@ CLAIMED = {
     "C08": (ENGINE_A, "exploration",
             "seeded simulation of adaptive chains on Gaussian and degenerate targets with fault-injected rejected draws; oracle on the reported transformation statistics",
             "Diag/LowRank presets with store_mass_matrix/store_transformed on: on diagonal Gaussians (condition number up to 1e12) every update built from >=4 accepted draws with non-degenerate spread recovers scales and mean to 1e-6 and the whitened gradient equals minus the whitened position; for every history (flat coordinates, piecewise-linear Laplace coordinates with constant gradient, scales 1e+-150, stuck chains, all-divergent windows) every reported scale / eigenvalue / mean is finite and positive and a coordinate whose estimate is invalid (no gradient variance) keeps its previous scale.",
-            "Low-rank exactness on covariances fitting the rank is not asserted. Windows with NaN/inf entries are not reachable through a chain and are not fed directly.",
+            "Low-rank exactness is asserted with eigval_cutoff ~ 1 (every direction kept, as in the repository's own integration test): after warmup |y + grad_y|^2 <= 1e-8 (1 + |y|^2) on correlated Gaussians of dimension 2..10; with the default cut-off directions with rescaled eigenvalue in (1/2, 2) are left unwhitened by design. Windows with NaN/inf entries are not reachable through a chain and are not fed directly.",
             "DESIGN.md §5 C08"),
     "C09": (ENGINE_A, "exploration",
             "seeded simulation of adaptive chains with fault-injected rejected draws; window invariants checked on the strategy's counters (hook H4) after every draw, step-size search re-run seen at the Math seam",
